@@ -340,7 +340,6 @@ structure BOk (B : Nat → Nat) (last len : Nat) : Prop where
   pad : ∀ j, len + 1 ≤ j → B j = 255
   lastle : last ≤ len + 1
   lenle : len ≤ last
-  len1 : 1 ≤ len
   marker : ∀ j, j + 1 ≤ last → B j = 255 → B (j + 1) ≤ 143
   nolast : B len ≠ 255
   bytes : ∀ j, B j < 256
